@@ -1,0 +1,84 @@
+
+/*==
+**
+**    ####   ######  #       #    #   ####
+**   #    #  #       #       ##  ##  #    #
+**   #       ###     #       # ## #  ######    (C) 2016-2020 Rene Eng
+**   #    #  #       #       #    #  #    #        LGPL
+**    ####   ######  ######  #    #  #    #
+**
+**
+--*/
+
+
+/// @file
+/// Synchronisation points for schedule-controlled verification runs.<br>
+/// Without the define \c CELMA_VERIF (the default) the macros expand to
+/// nothing. With it, every sync point calls a function that a test harness may
+/// install; as long as no function is installed, the call does nothing.
+
+
+#ifndef CELMA_COMMON_DETAIL_VERIF_HOOKS_HPP
+#define CELMA_COMMON_DETAIL_VERIF_HOOKS_HPP
+
+
+#ifdef CELMA_VERIF
+
+
+#include <atomic>
+
+
+namespace celma { namespace common { namespace detail {
+
+
+/// Type of the function that is called at a sync point, with the name of the
+/// sync point.
+using VerifSyncFunc = void (*)( const char*);
+
+
+/// Returns the (process-wide) slot with the function to call at sync points.
+/// @return  The slot, contains a \c nullptr when no function is installed.
+inline std::atomic< VerifSyncFunc>& verifSyncSlot()
+{
+   static std::atomic< VerifSyncFunc>  slot{ nullptr};
+   return slot;
+} // verifSyncSlot
+
+
+/// Called at a sync point: Calls the installed function, if any.
+/// @param[in]  name  The name of the sync point.
+inline void verifSync( const char* name)
+{
+   const VerifSyncFunc  func = verifSyncSlot().load( std::memory_order_acquire);
+   if (func != nullptr)
+      func( name);
+} // verifSync
+
+
+} // namespace detail
+} // namespace common
+} // namespace celma
+
+
+/// A sync point (statement).
+#define  CELMA_VERIF_SYNC( name)  ::celma::common::detail::verifSync( name)
+/// A sync point in front of the evaluation of an initialiser value.
+#define  CELMA_VERIF_SYNC_INIT( name, value) \
+   (::celma::common::detail::verifSync( name), value)
+
+
+#else
+
+
+#define  CELMA_VERIF_SYNC( name)  ((void) 0)
+#define  CELMA_VERIF_SYNC_INIT( name, value)  value
+
+
+#endif   // CELMA_VERIF
+
+
+#endif   // CELMA_COMMON_DETAIL_VERIF_HOOKS_HPP
+
+
+// =====  END OF verif_hooks.hpp  =====
+
